@@ -75,6 +75,7 @@ static const char* replay_dir = "replay";
 static const char* known_path = NULL;
 static double t_start, t_deadline = 1e18;
 static double hang_s = 60;
+static double hang_confirm = 4; /* a case that stopped making progress is re-run alone with this many times the limit */
 static uint64_t hung_units[64];
 static int nhung_units;
 static int replay_failed = 0;
@@ -497,6 +498,8 @@ int main(int argc, char** argv) {
       deadline_s = atof(argv[++i]);
     else if (!strcmp(argv[i], "--hang") && i + 1 < argc)
       hang_s = atof(argv[++i]);
+    else if (!strcmp(argv[i], "--hang-confirm") && i + 1 < argc)
+      hang_confirm = atof(argv[++i]);
     else if (!strcmp(argv[i], "-v"))
       vf_verbose = 1;
     else {
@@ -602,7 +605,7 @@ int main(int argc, char** argv) {
                  (unsigned long long)ws->cur_unit, tl);
       free(tl);
       write_replay_file(path, ws->tag, ws->data, ws->len, msg);
-      int sr = solitary(ws->tag, ws->data, ws->len, hung ? hang_s * 4 : hang_s * 2, lp);
+      int sr = solitary(ws->tag, ws->data, ws->len, hung ? hang_s * hang_confirm : hang_s * 2, lp);
       if (hung) hangs++; else crashes++;
       if (sr != 0) {
         confirmed++;
